@@ -833,6 +833,7 @@ impl Machine {
 
     /// Evaluate one top-level form.
     pub fn eval_form(&mut self, c: &Cell) -> Result<V, Stop> {
+        self.steps = 0;
         let e = self.desugar(c)?;
         let halt: K = Rc::new(KNode { fr: Fr::Halt, next: None, depth: 0 });
         self.run(State::Eval(e, None, halt))
